@@ -1384,5 +1384,8 @@ Proof.
   split; [reflexivity|]. split; [reflexivity|].
   split; [vm_compute; reflexivity|]. split; [vm_compute; reflexivity|].
   split; [vm_compute; reflexivity|]. split; [vm_compute; reflexivity|].
-  eexists. split; vm_compute; reflexivity.
+  destruct (execute_withdraw (WD_ex_world 810) WD_ex_hub A_hub 23) as [[h23' m23']|] eqn:E3;
+    [|vm_compute in E3; discriminate].
+  exists h23'. vm_compute in E3. inversion E3; subst h23' m23'. clear E3.
+  split; [reflexivity|]. vm_compute. reflexivity.
 Qed.
